@@ -318,6 +318,58 @@ def sc_delegate_cycle(rng):
             pass
 
 
+def sc_delegate_name_cycle(rng):
+    """the DELEGATE attribute itself is deferred: to itself, to a sibling in a cycle, through a
+    property that reads the deferred attribute, through a chain of deferrals on one object"""
+    listen = rng.random() < 0.5
+    kind = rng.randrange(5)
+    D = rng.choice([DelegatesTo, PrototypedFrom])
+    try:
+        if kind == 0:
+            class A(HasTraits):
+                c = D('c', listenable=listen)
+        elif kind == 1:
+            class A(HasTraits):
+                p = D('q', listenable=listen)
+                q = D('p', listenable=listen)
+                c = D('p', listenable=listen)
+        elif kind == 2:
+            class A(HasTraits):
+                holder = Property()
+                c = D('holder', listenable=listen)
+
+                def _get_holder(self):
+                    return self.c
+        elif kind == 3:
+            class A(HasTraits):
+                real = Instance(HasTraits)
+                d1 = D('real', prefix='d1')
+                d2 = D('d1', listenable=listen)
+                d3 = D('d2', listenable=listen)
+                c = D('d3', listenable=listen)
+        else:
+            class A(HasTraits):
+                c = D('c', prefix=rng.choice(['c', 'x', '*', 'c*']), listenable=listen)
+                __prefix__ = 'c'
+        a = A()
+    except (RecursionError, Exception):
+        return
+    fs = [lambda: a.c, lambda: setattr(a, 'c', 1), lambda: a.base_trait('c'), lambda: a.trait('c'),
+          lambda: delattr(a, 'c'), lambda: a.trait_get(), lambda: a.on_trait_change(lambda: None, 'c'),
+          lambda: a.observe(lambda e: None, 'c'), lambda: a.validate_trait('c', 1), lambda: a.trait_set(c=2),
+          lambda: a.clone_traits(), lambda: copy.deepcopy(a), lambda: pickle.dumps(a), lambda: a._trait('c', 2),
+          lambda: a._trait('c', -2), lambda: a.trait_property_changed('c', 1, 2), lambda: getattr(a, 'p', None),
+          lambda: getattr(a, 'd3', None), lambda: a.sync_trait('c', A.__new__(A))]
+    rng.shuffle(fs)
+    for f in fs:
+        try:
+            f()
+        except RecursionError:
+            pass
+        except Exception:
+            pass
+
+
 def sc_delegate_value_dies(rng):
     class P(HasTraits):
         x = Int
@@ -1002,6 +1054,7 @@ SCENARIOS = [
     sc_observe_mutating_handlers, sc_default_attribute_error_warning, sc_anytrait_handlers_mutate,
     sc_delegate_dropped_during_access, sc_plain_property, sc_no_dict_instance,
     sc_items_and_python_names, sc_ctrait_public_setters, sc_finalizers_collect,
+    sc_delegate_name_cycle,
 ]
 
 
